@@ -1,6 +1,8 @@
 package base
 
 import (
+	"strings"
+
 	"github.com/relex/gotils/promexporter/promext"
 	"github.com/relex/gotils/promexporter/promreg"
 	"github.com/relex/slog-agent/util"
@@ -121,6 +123,10 @@ func (pcounter *LogProcessCounterSet) SelectMetricKeySet(record *LogRecord) *Log
 	if !found {
 		// copy transient field values from record for storing into map and counters
 		permKeys := util.DeepCopyStrings(tempKeys)
+		for i, key := range permKeys {
+			// field values come from the network; label values must be valid UTF-8 or the metric library panics
+			permKeys[i] = strings.ToValidUTF8(key, "\uFFFD")
+		}
 		permMergedKey := util.DeepCopyStringFromBytes(tempMergedKey)
 		customCounters := make([]*logCustomCounterImpl, len(pcounter.customCounterVecMap))
 		for _, vec := range pcounter.customCounterVecMap {
